@@ -49,6 +49,9 @@ type Model struct {
 	NormalV  map[int64]bool            // per committed version: writes were ascending, one per key, effective (C15 hash clause)
 	wlog     []wentry                  // write log of the working version
 	Genesis  int64                     // first version ever committed in this store (0 = none)
+	// LegacyLatest: latest version stored in the legacy (hash-keyed) format, 0 if none. The library prunes legacy
+	// versions only in bulk: DeleteVersionsTo(n) below the legacy latest version is accepted and deletes nothing.
+	LegacyLatest int64
 }
 
 type wentry struct {
@@ -253,6 +256,9 @@ func (m *Model) LoadVersion(t int64) (int64, bool) {
 
 // DeleteVersionsTo returns ok=false when the call must be rejected without effect.
 func (m *Model) DeleteVersionsTo(n int64) bool {
+	if m.LegacyLatest > n {
+		return true // accepted, nothing is deleted (legacy versions are pruned in bulk)
+	}
 	if m.Latest == 0 || n >= m.Latest {
 		return false
 	}
@@ -269,6 +275,7 @@ func (m *Model) DeleteVersionsTo(n int64) bool {
 	if n+1 > m.First {
 		m.First = n + 1
 	}
+	m.LegacyLatest = 0
 	return true
 }
 
@@ -287,6 +294,9 @@ func (m *Model) Truncate(t int64) {
 		}
 	}
 	m.Latest = t
+	if m.LegacyLatest > t {
+		m.LegacyLatest = t
+	}
 }
 
 func (m *Model) pairs(c smap) [][2]string {
